@@ -1049,9 +1049,9 @@ func c17DeepHeaders(c *Ctx) c17Record {
 }
 
 func c17GenRecord(c *Ctx) c17Record {
-	kind := c.G(12)
+	kind := c.G(13)
 	switch {
-	case kind == 10:
+	case kind == 10 || kind == 12:
 		return c17MixedMembers(c, c.G(2) == 0)
 	case kind == 11 && c.G(2) == 0:
 		return c17DeepHeaders(c)
